@@ -4,6 +4,30 @@ RULE = ("statements = TLC state space of MCStmt: per statement kind (SELECT / IN
         "(subqueries, joins, conditions, unions, CTEs, CASE, window frames, FIELD order, NULLS ordering, LIMIT/OFFSET, upsert, RETURNING, UPDATE..FROM) with distinct value tags, "
         "+ TLC -simulate walks over the full product + random nested statements; each built on the real crate and rendered on 3 backends; "
         "checked: Writer event discipline, placeholder count / numbering under the engine lexer, bound values = values given in the dialect's clause order; non-trivial = at least two bound values")
+import os, re, shutil, subprocess
+from common import *
+
+def writer_checks():
+    """the writer automaton: bounded by TLC (Writer.tla, both placeholder styles) and unbounded by TLAPS (WriterProof.tla)"""
+    wd = workdir("C01w")
+    st = 0
+    for numbered, mark in (("TRUE", "$"), ("FALSE", "?")):
+        cfg = ("SPECIFICATION Spec\nCONSTANTS Numbered = %s Mark = \"%s\" Frags = {\"SELECT \", \", \", \"'?'\"} Vals = {\"v1\", \"v2\"} MaxLen = 6\n"
+               "INVARIANT WriterInv MarksInOrder\nPROPERTY ValuesAppendOnly\nCHECK_DEADLOCK FALSE\n" % (numbered, mark))
+        r = run_tlc("Writer", cfg, os.path.join(wd, "tlc_" + numbered), workers=4, heap="2g", young=None)
+        tlc_must_pass(r, "Writer.tla")
+        st += r.distinct
+    pd = os.path.join(wd, "tlaps"); shutil.rmtree(pd, ignore_errors=True); os.makedirs(pd)
+    shutil.copy(os.path.join(SPEC, "WriterProof.tla"), pd)
+    p = subprocess.run(["tlapm", "--threads", "8", "--cleanfp", "WriterProof.tla"], cwd=pd, stdout=subprocess.PIPE, stderr=subprocess.STDOUT, text=True, timeout=900)
+    m = re.search(r"All (\d+) obligations proved", p.stdout)
+    if not m:
+        raise ToolError("tlapm did not prove WriterProof.tla:\n" + p.stdout[-2000:])
+    log("[C01] Writer.tla: %d states (TLC, both placeholder styles); WriterProof.tla: %s obligations proved by TLAPS (unbounded)" % (st, m.group(1)))
+    return {"writer_states": st, "tlaps_obligations_proved": int(m.group(1)),
+            "unbounded": "the C01(a) invariant of the writer automaton (counter = #values, i-th placeholder numbered i) is proved inductive by TLAPS for any fragments, values and build length"}
+
 def run(tier, replay_path=None):
     return run_prop("C01", tier, replay_path, ["C01/"], RULE,
-                    ["clause order of value-carrying clauses per dialect as in DESIGN.md Appendix C.3", "raw SQL supplied by the caller is opaque"])
+                    ["clause order of value-carrying clauses per dialect as in DESIGN.md Appendix C.3", "raw SQL supplied by the caller is opaque"],
+                    extra_cov=None if replay_path else writer_checks)
